@@ -65,6 +65,7 @@ def make_req(cls_, id_, payload, resp):
         class Resp(UbxFrame):
             CID = UbxCID(cls_, id_)
             NAME = 'resp'
+            TAG = f'resp{minlen}'          # which of the synthetic response classes built the frame
 
             def unpack(self):
                 if len(self.data) < minlen:
@@ -90,7 +91,7 @@ def make_req(cls_, id_, payload, resp):
 def show_result(r):
     if r is None:
         return 'none'
-    tag = 'resp' if type(r).__name__ == 'Resp' else type(r).__name__
+    tag = r.TAG if type(r).__name__ == 'Resp' else type(r).__name__
     return f'{r.CID.cls}/{r.CID.id}:{tag}:{bytes(r.data).hex()}'
 
 
@@ -284,7 +285,7 @@ def oracles_srv(line, real_out):
     calls = tok(real_out, 'calls') or ''
     sent = int(tok(real_out, 'sent') or 0)
     t = int(tok(real_out, 't') or 0)
-    resp_tag = 'resp' if resp.isdigit() else resp
+    resp_tag = ('resp' + resp) if resp.isdigit() else resp
     # C04
     why = check_result(kind, cls_, id_, resp_tag, result, after_last_tx(calls, [c for _, c in rx]))
     recs.append({'prop': 'C04', 'ok': why is None, 'expected': 'nothing, or a fresh, matching (and for CFG acknowledged) answer',
@@ -582,7 +583,7 @@ def oracles_seqs(line, real_out):
         c1 = starts[i + 1][4] if i + 1 < len(starts) else len(s.calls)
         j0 = starts[i][3]
         stream = after_last_tx(s.calls[c0:c1], chunks[j0:])
-        resp_tag = 'resp' if r['resp'].isdigit() else r['resp']
+        resp_tag = ('resp' + r['resp']) if r['resp'].isdigit() else r['resp']
         w = check_result(r['kind'], r['cid'][0], r['cid'][1], resp_tag, outs[i], stream)
         why4 = why4 or (w and f'request {i}: {w}')
         t0 = starts[i][0]
@@ -683,7 +684,7 @@ def gen_c06(rng):
         body = pre + ans
     else:
         apl = rand_payload(rng, minlen + rng.choice([0, 0, 3, 30]))
-        tag, acid = 'resp', (cls_, id_)
+        tag, acid = f'resp{minlen}', (cls_, id_)
         body = pre + frame(cls_, id_, apl)
         if cls_ == 6:
             mid = b''.join(benign(rng, [(1, 7)]) for _ in range(rng.choice([0, 0, 1, 2])))
@@ -809,7 +810,7 @@ def run_plain(line, debug):
     import comp_parsers
     base = line[len('level'):]
     fn = {'ubx': comp_parsers.real_ubx, 'nmea': comp_parsers.real_nmea, 'scan': real_scan, 'gpsdtx': real_gpsdtx, 'gpsd': real_gpsd,
-          'tty': real_tty}[base.split('|')[0].replace('scanseq', 'scan')]
+          'tty': real_tty}[base.split('|')[0].replace('scanseq', 'scan').replace('gpsdsetup', 'gpsdtx')]
     log_level(debug)
     try:
         return fn(base)
@@ -820,7 +821,7 @@ def run_plain(line, debug):
 
 
 def is_plain(line):
-    return line.startswith(('levelubx|', 'levelnmea|', 'levelscan|', 'levelscanseq|', 'levelgpsdtx|', 'levelgpsd|', 'leveltty|'))
+    return line.startswith(('levelubx|', 'levelnmea|', 'levelscan|', 'levelscanseq|', 'levelgpsdtx|', 'levelgpsd|', 'leveltty|', 'levelgpsdsetup|'))
 
 
 def real_level(line):
@@ -1115,6 +1116,10 @@ def gen_scan1(rng, n, profile):
 # =====================================================================================================
 # gpsd back end
 # =====================================================================================================
+class ScriptEnd(Exception):
+    """the scripted chunks of a handshake ran out"""
+
+
 class FakeSocketModule:
     """stands in for the `socket` module inside ubxlib.server"""
     AF_INET, AF_UNIX, SOCK_STREAM, SHUT_RDWR = real_socket.AF_INET, real_socket.AF_UNIX, real_socket.SOCK_STREAM, real_socket.SHUT_RDWR
@@ -1150,6 +1155,8 @@ class FakeSocketModule:
             self._step('recv', n)
             q = FakeSocketModule.script.get('recv', [])
             if not q:
+                if FakeSocketModule.script.get('strict'):
+                    raise ScriptEnd()          # the handshake loop of the code swallows time-outs: end the script another way
                 raise real_socket.timeout()
             return q.pop(0)
 
@@ -1338,6 +1345,8 @@ def gen_gpsd(rng, n, profile):
 
 
 def real_gpsdtx(line):
+    if line.startswith('gpsdsetup|'):
+        return real_gpsdsetup(line)
     _, dev, data, reply = line.split('|')
     device = bytes.fromhex(dev).decode()
     try:
@@ -1358,7 +1367,79 @@ def real_gpsdtx(line):
         return 'EXC:' + exc_name(e)
 
 
+def real_gpsdsetup(line):
+    """gpsdsetup|<requested hex or ->|<chunk>/<chunk>…|<data hex>: setup() over stub sockets that deliver the chunks one per
+    recv(), then one command; which device is the command addressed to?"""
+    _, req, chunks, data = line.split('|')
+    want = None if req == '-' else bytes.fromhex(req).decode()
+    try:
+        g = gpsd_server(want)
+        FakeSocketModule.script = {'recv': [chunk_bytes(c) for c in chunks.split('/')], 'strict': True}
+        try:
+            g.setup()
+        except ScriptEnd:
+            return 'not-ready'            # the scripted chunks ran out before the handshake was complete
+        FakeSocketModule.log.clear()
+        FakeSocketModule.script = {'recv': [b'OK']}
+        g._transmit(bytearray(bytes.fromhex(data)))
+        sent = [e[1] for e in FakeSocketModule.log if e[0] == 'sendall']
+        return f'selected={g.selected_device} cmd={sent[0].hex() if len(sent) == 1 else "none"}'
+    except RecursionError:
+        return 'EXC:RecursionError'
+    except Exception as e:
+        return 'EXC:' + exc_name(e)
+
+
+def oracles_gpsdsetup(line, real_out):
+    _, req, chunks, data = line.split('|')
+    want = None if req == '-' else bytes.fromhex(req).decode()
+    sel, en = None, False
+    for c in chunks.split('/'):
+        if c != 'U':
+            for l in (c.split(';') if c else []):
+                if l in ('X', 'D', 'B', 'b'):
+                    continue
+                v = untok(l.split(' '))
+                if not wellformed_json(v):
+                    return [], []
+                if isinstance(v, dict) and v.get('class') == 'DEVICES':
+                    paths = [d['path'] for d in v['devices']]
+                    if want:
+                        if want in paths:
+                            sel, en = want, True
+                    elif paths:
+                        sel, en = paths[0], True
+        if en:
+            break                          # _enable() stops reading once a chunk has made the connection ready
+    exp = f'selected={sel} cmd={(b"&" + sel.encode() + b"=" + data.encode()).hex()}' if en else 'not-ready'
+    return [{'prop': 'C20', 'ok': real_out == exp, 'expected': exp[:300], 'observed': real_out[:300],
+             'what': 'setup() returns once a device is selected; commands are addressed to the selected device'}], []
+
+
+def gen_gpsdsetup(rng, n):
+    devs = ['/dev/a', '/dev/b', '/dev/gnss0', '/dev/ttyACM0', '/dev/ttyACM10']
+    for _ in range(n):
+        want = rng.choice([None, None, '/dev/b', '/dev/zz', '/dev/a', '/dev/ttyACM1'])
+        chunks = []
+        for _ in range(rng.randrange(1, 4)):
+            toks = []
+            for _ in range(rng.randrange(1, 4)):
+                k = rng.random()
+                if k < .6:
+                    toks.append(tok_json({'class': 'DEVICES', 'devices': [{'path': p} for p in rng.sample(devs, rng.randrange(0, 4))]}))
+                elif k < .75:
+                    toks.append(tok_json({'class': 'VERSION', 'release': '3.25'}))
+                elif k < .9:
+                    toks.append('X')
+                else:
+                    toks.append(tok_json({'class': 'devices', 'devices': [{'path': '/dev/evil'}]}))
+            chunks.append(';'.join(toks))
+        yield f'gpsdsetup|{"-" if want is None else want.encode().hex()}|' + '/'.join(chunks) + '|' + rand_payload(rng, rng.choice([0, 8])).hex()
+
+
 def oracles_gpsdtx(line, real_out):
+    if line.startswith('gpsdsetup|'):
+        return oracles_gpsdsetup(line, real_out)
     _, dev, data, reply = line.split('|')
     cmd = b'&' + bytes.fromhex(dev) + b'=' + data.encode()
     if reply.startswith('T'):
@@ -1381,6 +1462,8 @@ def oracles_gpsdtx(line, real_out):
 
 
 def gen_gpsdtx(rng, n, profile):
+    for ln in gen_gpsdsetup(rng, max(30, n)):
+        yield ln
     replies = [b'OK', b'OK\n', b'ERROR', b'{"class":"ACK"}', b'{"class":"ERROR"}', b'', b' ok ', b'NACK', b'K', b'O', b'\r\nACK\r\n']
     for dev in ['/dev/a', '/dev/ttyS3', '/dev/gnss0', '/dev/~!@#$%^*()_+-=[]{};:,.<>?', 'x']:
         for rep in replies:
